@@ -5,7 +5,7 @@ MODE = "src"
 EXPLANATION = ("Inductive step over an arbitrary writer pre-state (symbolic prefix bytes, symbolic sanitisation mode): one add_* call with symbolic arguments; integers are unbounded "
                "symbolic (in range, at the limit, far beyond), strings are arbitrary code points 0..0x10FFFF, length/padded arguments symbolic. The writer is append-only, which the "
                "'earlier content untouched' obligation checks, so one step covers histories of any length.")
-BOUNDS = {"quick": "prefix 0..2 bytes; integers: every v >= 0; strings: every string of 0..4 code points, length argument 0..len+3, both padded values, both modes",
+BOUNDS = {"quick": "prefix 0..2 bytes; integers: every v >= 0; strings: every string of 0..4 code points, length argument 0..len+3 and len+254..len+258 (padding across the 255/256 boundary), both padded values, both modes",
           "thorough": "prefix 0..2 bytes; integers: every v >= 0; strings of 0..6 code points"}
 OUTSIDE = "negative integers (excluded by the property); strings longer than the bound"
 ASSUMPTIONS = []
@@ -27,8 +27,12 @@ def jobs(tier):
                 js.append(dict(name=f"{kind}[L={L},pre={npre}]", fn="string", args=[kind, L, npre], collect_models=2,
                                expect=[kind + ": emitted bytes equal the reference image"]))
             for kind in ("fixed_string", "fixed_encoded_string"):
-                js.append(dict(name=f"{kind}[L={L},pre={npre}]", fn="fixed", args=[kind, L, npre], collect_models=2,
+                js.append(dict(name=f"{kind}[L={L},pre={npre}]", fn="fixed", args=[kind, L, npre, 0, L + 3], collect_models=2,
                                expect=[kind + ": ValueError exactly when the length relation is violated", kind + ": emitted bytes equal the reference image"]))
+                if L <= 2 and npre == (0 if L <= 2 else 1):
+                    # padding across the one-byte boundary (254..258 bytes of padding)
+                    js.append(dict(name=f"{kind}[L={L},pre={npre},long-padding]", fn="fixed", args=[kind, L, npre, L + 254, L + 258], collect_models=1,
+                                   expect=[kind + ": emitted bytes equal the reference image"]))
         js.append(dict(name=f"defaults[L={L}]", fn="defaults", args=[L], collect_models=1))
         js.append(dict(name=f"toggling[L={L}]", fn="toggling", args=[L], collect_models=1))
     return js
